@@ -40,6 +40,16 @@ func c09Program(cases []c09Case, arms []int, forms []int, dflt bool, ctx int) st
 	case 3: // inside the arm of an outer match
 		sb.WriteString("let f (u: U) (v: U) =\n  match v with\n  | _ ->\n")
 		ind = "    "
+	case 4: // after an earlier, exhaustive match on the same union (no state may leak between matches)
+		sb.WriteString("let g0 (u: U) =\n  match u with\n")
+		for i, c := range cases {
+			pat := c.name
+			if c.payload != "" {
+				pat += " _"
+			}
+			sb.WriteString("  | " + pat + " -> " + strconv.Itoa(i) + "\n")
+		}
+		sb.WriteString("\nlet f (u: U) =\n")
 	}
 	tgt := "u"
 	if ctx == 2 {
@@ -170,7 +180,7 @@ func vC09(seed int64, count int, extra []string) {
 					}
 					c09Check(cases, arms, forms, dflt, 0)
 					if mix >= 2 || n <= 3 {
-						c09Check(cases, arms, forms, dflt, 1+r.Intn(3))
+						c09Check(cases, arms, forms, dflt, 1+r.Intn(4))
 					}
 				}
 			})
@@ -192,6 +202,6 @@ func vC09(seed int64, count int, extra []string) {
 			arms[j] = r.Intn(n)
 			forms[j] = r.Intn(3)
 		}
-		c09Check(cases, arms, forms, r.Intn(3) == 0, r.Intn(4))
+		c09Check(cases, arms, forms, r.Intn(3) == 0, r.Intn(5))
 	}
 }
